@@ -398,6 +398,9 @@ struct C03Script {
     segs: Vec<usize>,               // cut the NEXT flush into separate TCP writes at these byte offsets
     seg_delay_ms: u64,              // pause between the pieces (default 2 ms)
     copy_reply_raw: Option<Vec<u8>>, // bytes to emit instead of `C Z` / `E Z` when CopyDone/CopyFail arrives
+    copy_abort_at: usize,            // C11 (additive): directive copy_abort_at=N on COPY .. FROM STDIN: the backend aborts the COPY at the N-th CopyData (bad row)
+    copy_data_seen: usize,
+    copy_simple: bool,               // the COPY was started by a simple Query (ReadyForQuery follows the error at once)
     copy_reply_raw2: Option<Vec<u8>>, // if set: after copy_reply_raw the session is in COPY IN again (a second COPY
                                       // of the same Query) and answers the next CopyDone/CopyFail with these bytes
 }
@@ -786,6 +789,9 @@ impl Conn {
                     b.put_i16(0);
                     put_msg(&mut self.out, b'G', &b);
                     self.s.copy_in = true;
+                    self.c03.copy_abort_at = d.get("copy_abort_at").and_then(|x| x.parse().ok()).unwrap_or(0);
+                    self.c03.copy_data_seen = 0;
+                    self.c03.copy_simple = simple;
                 } else {
                     let n: usize = d.get("rows").and_then(|x| x.parse().ok()).unwrap_or(2);
                     let size: usize = d.get("size").and_then(|x| x.parse().ok()).unwrap_or(8);
@@ -1241,6 +1247,21 @@ async fn run_session(c: &mut Conn) -> String {
             }
             b'd' => {
                 c.log_msg(code, json!({"len": body.len(), "raw": hex(&raw)}));
+                if c.s.copy_in && c.c03.copy_abort_at > 0 {
+                    c.c03.copy_data_seen += 1;
+                    if c.c03.copy_data_seen == c.c03.copy_abort_at {
+                        // C11 (additive, only with the directive): PostgreSQL aborts a COPY at a bad row at once: ErrorResponse
+                        // (+ ReadyForQuery in the simple protocol, skip-until-Sync in the extended one); CopyData/CopyDone/CopyFail
+                        // that still arrive are silently dropped (the arms below already ignore them outside COPY)
+                        c.s.copy_in = false;
+                        c.err("22P02", "invalid input syntax for type integer (COPY aborted by the backend)");
+                        if c.c03.copy_simple {
+                            c.rfq();
+                        } else {
+                            c.s.skip_until_sync = true;
+                        }
+                    }
+                }
                 Flow::Continue
             }
             b'c' | b'f' => {
